@@ -111,7 +111,50 @@ def alt_rooteq(src):
         "            if not any(containment) or varbind.oid in yielded or varbind.oid in requested_oids:")
 
 
-ALTS = {"ids": alt_ids, "socket": alt_socket, "multiwalk": alt_multiwalk, "rooteq": alt_rooteq}
+def alt_lock(src):
+    """a client serialises its exchanges with a lock (each operation still gets what it would get alone)"""
+    rep(src + "/puresnmp/api/raw.py", """    async def _exchange(self, pdu: PDU, request_id: int) -> PDU:
+        packet, _ = await self.mpm.encode(""", """    async def _exchange(self, pdu: PDU, request_id: int) -> PDU:
+        import asyncio as _aio
+
+        locks = self.__dict__.setdefault("_alt_locks", {})
+        lock = locks.setdefault(id(_aio.get_running_loop()), _aio.Lock())
+        async with lock:
+            return await self._exchange_locked(pdu, request_id)
+
+    async def _exchange_locked(self, pdu: PDU, request_id: int) -> PDU:
+        packet, _ = await self.mpm.encode(""")
+
+
+def alt_roworder(src):
+    """tablify returns the rows in the opposite order (its documentation: 'should not be considered ordered in any way')"""
+    rep(src + "/puresnmp/util.py", "    return list(rows.values())\n", "    return list(rows.values())[::-1]\n")
+
+
+def alt_longlen(src):
+    """v1 / v2c requests leave with the outer SEQUENCE length in the definite long form with a spare octet (RFC 3417 section 8
+    permits more than the minimum number of length octets)"""
+    helper = """
+
+def _alt_longlen(data: bytes) -> bytes:
+    first = data[1]
+    if first < 0x80:
+        head, length = 2, first
+    else:
+        n = first & 0x7F
+        head, length = 2 + n, int.from_bytes(data[2:2 + n], "big")
+    body = data[head:head + length]
+    return data[:1] + b"\\x83" + len(body).to_bytes(3, "big") + body
+"""
+    for f, cls in (("v2c", "V2CEncodingResult"), ("v1", "V1EncodingResult")):
+        path = src + "/puresnmp_plugins/mpm/%s.py" % f
+        rep(path, "        return %s(bytes(packet))" % cls, "        return %s(_alt_longlen(bytes(packet)))" % cls)
+        s = open(path).read()
+        open(path, "w").write(s + helper)
+
+
+ALTS = {"ids": alt_ids, "socket": alt_socket, "multiwalk": alt_multiwalk, "rooteq": alt_rooteq, "lock": alt_lock,
+        "roworder": alt_roworder, "longlen": alt_longlen}
 
 
 def main():
